@@ -9,7 +9,7 @@ import refparser as RP
 PARSE_EXC = ("InvalidExpression", "OutOfTokens", "InvalidSyntax", "UnexpectedBehavior", "TrailingTokens")
 
 
-def impl_parse(s, parser=None):
+def impl_parse(s, parser=None, serialize=True):
     from mathy_core.parser import ExpressionParser, ParserException
 
     try:
@@ -22,6 +22,8 @@ def impl_parse(s, parser=None):
         return ("EXC", "RecursionError")
     except BaseException as e:
         return ("EXC", "INTERNAL-" + type(e).__name__)
+    if not serialize:
+        return ("OK", None)
     try:
         return ("OK", P.ser(t))
     except P.AuditError as e:
